@@ -302,6 +302,7 @@ func runC15(sc drv.Scenario) drv.Result {
 	reported := map[int]uint64{}
 	holdVB1 := make(chan struct{})
 	armed := false // faults that hit the reopen of a rebalance are switched on after start-up
+	hit := false   // ... and this says that the armed fault has actually answered a request
 	env.Sim.Hook = func(r *cbsim.Req) *cbsim.Action {
 		mu.Lock()
 		defer mu.Unlock()
@@ -314,6 +315,7 @@ func runC15(sc drv.Scenario) drv.Result {
 		switch r.Op {
 		case cbsim.OpSubdocLookup:
 			if p.Fault == "load-on-reopen" && armed && strings.Contains(string(r.Key), ":checkpoint:") {
+				hit = true
 				return act()
 			}
 			if p.Fault == "load" {
@@ -328,6 +330,7 @@ func runC15(sc drv.Scenario) drv.Result {
 				return act()
 			}
 			if p.Fault == "seqno-on-reopen" && armed {
+				hit = true
 				return act()
 			}
 			if p.Fault == "seqno-omit" {
@@ -421,7 +424,23 @@ func runC15(sc drv.Scenario) drv.Result {
 		armed = true
 		mu.Unlock()
 		drv.NoteFlush("rebalance requested with fault armed")
-		go hx.HTTPDo("GET", fmt.Sprintf("http://127.0.0.1:%d/rebalance", cfg.API.Port), "", 20*time.Second)
+		// the API server may still be coming up right after readiness: ask until it answers, then wait (bounded, generous)
+		// until the reopen has run into the fault - the clock for "still running" starts there, not at the request
+		url := fmt.Sprintf("http://127.0.0.1:%d/rebalance", cfg.API.Port)
+		asked := hx.WaitFor(10*time.Second, func() bool {
+			code, _, err := hx.HTTPDo("GET", url, "", 5*time.Second)
+			return err == nil && code == 200
+		})
+		reached := hx.WaitFor(20*time.Second, func() bool {
+			mu.Lock()
+			defer mu.Unlock()
+			return hit
+		})
+		if !asked || !reached {
+			full.Close(10 * time.Second)
+			return drv.Result{Verdict: drv.Inconclusive, Detail: fmt.Sprintf("the rebalance did not run into the armed fault (request answered: %v, fault hit: %v)", asked, reached)}
+		}
+		drv.NoteFlush("fault hit at the reopen")
 	}
 	wait := 1500
 	if p.WaitMs > 0 {
